@@ -3,6 +3,7 @@ package main
 import (
 	"fmt"
 	"sort"
+	"strings"
 )
 
 func init() { registry["C07"] = checkC07 }
@@ -150,6 +151,21 @@ func checkC07(e *RunEnv) *CheckResult {
 			steps = append(steps, Write(first, v2(first)), Run("add", first).WithTags(t...), Run("rm", last).WithTags(t...),
 				Write("zz new", "new\n"), Run("add", "zz new").WithTags(t...), Run("commit", "-m", "second").WithTags(t...), Run("commit", "-m", "third, nothing staged").WithTags(t...))
 			cs = append(cs, Case{Base: base, BaseName: "S0", BaseSeed: seedS0(), Steps: steps, Probe: true})
+		}
+		// blob and tree ids that contain 0x00 bytes (one and two) in the HEAD snapshot status reads
+		{
+			one := findContent("c", func(id string) bool { return strings.Contains(id[:38], "00") && strings.Index(id, "00")%2 == 0 })
+			two := findContent("z", func(id string) bool {
+				n := 0
+				for i := 0; i < 40; i += 2 {
+					if id[i:i+2] == "00" {
+						n++
+					}
+				}
+				return n >= 2
+			})
+			cs = append(cs, Case{Base: base, BaseName: "S0", BaseSeed: seedS0(), Probe: true, Steps: []Step{Write("one-zero", one), Write("two-zero", two), Write("k", "k\n"), Run("add", "one-zero", "two-zero", "k"), Run("commit", "-m", "m"),
+				Write("k", "k2\n"), Run("add", "k"), Run("rm", "one-zero"), Run("commit", "-m", "m2"), Run("commit", "-m", "nothing")}})
 		}
 		// a directory of 900 files (tree > 32 KiB, index > 64 KiB), names at the length limit, identical directories
 		cs = append(cs, Case{Base: base, BaseName: "S0", BaseSeed: seedS0(), Steps: append(hugeDirSteps(900), Run("commit", "-m", "nothing staged")), Probe: true})
